@@ -196,33 +196,55 @@ def secondsToMs : JVal → Option Nat
 
 def validSignum (i : Int) : Bool := 0 < i && i < 65
 
-/-- `true` when applied, `false` when it raised (ValueError/TypeError → generic errno 5) -/
+/-- option changes that do not touch numprocesses -/
+inductive OptChange where
+  | warmup (ms : Nat) | graceful (ms : Nat) | stopSignal (n : Nat) | stopChildren (b : Bool)
+  | sendHup (b : Bool) | maxAge (n : Nat) | nothing
+  deriving Repr, Inhabited
+
+def applyOpt : OptChange → Watcher → Watcher
+  | .warmup ms, w => { w with warmup := ms }
+  | .graceful ms, w => { w with graceful := ms }
+  | .stopSignal n, w => { w with stopSignal := n }
+  | .stopChildren b, w => { w with stopChildren := b }
+  | .sendHup b, w => { w with sendHup := b }
+  | .maxAge n, w => { w with maxAge := n }
+  | .nothing, w => w
+
+def setWOpt (uid : Nat) (c : OptChange) : M Unit := modW uid (applyOpt c)
+
+/-- what `set_opt(key, val)` changes; `none` = it raises (ValueError/TypeError → generic errno 5) -/
+def optChange (key : String) (val : JVal) : Option OptChange :=
+  match key, val with
+  | "warmup_delay", v => (secondsToMs v).map .warmup
+  | "graceful_timeout", v => (secondsToMs v).map .graceful
+  | "stop_signal", .int i => if validSignum i then some (.stopSignal i.toNat) else none
+  | "stop_signal", .bool _ => none
+  | "stop_children", .bool b => some (.stopChildren b)
+  | "send_hup", .bool b => some (.sendHup b)
+  | "max_age", .int i => some (.maxAge i.toNat)
+  | "uid", .int 0 => some .nothing
+  | "uid", .str "root" => some .nothing
+  | "uid", _ => none
+  | _, _ => some .nothing
+
+/-- `Watcher.set_opt`; `true` when applied, `false` when it raised -/
 def setOpt (wuid : Nat) (key : String) (val : JVal) : M Bool := do
   let w ← getW wuid
-  let upd (f : Watcher → Watcher) : M Bool := do
-    modW wuid f
+  if key = "numprocesses" then
+    let n : Int := match val with | .int i => i | .bool b => if b then 1 else 0 | _ => 0
+    let n := if n < 0 then 0 else n
+    if w.singleton && n > 1 then pure false else
+    setNp wuid n
     notify wuid "updated" none
     pure true
-  match key, val with
-  | "numprocesses", v =>
-    let n : Int := match v with | .int i => i | .bool b => if b then 1 else 0 | _ => 0
-    let n := if n < 0 then 0 else n
-    if w.singleton && n > 1 then pure false else upd fun w => { w with np := n }
-  | "warmup_delay", v => match secondsToMs v with
-    | some ms => upd fun w => { w with warmup := ms }
+  else
+    match optChange key val with
     | none => pure false
-  | "graceful_timeout", v => match secondsToMs v with
-    | some ms => upd fun w => { w with graceful := ms }
-    | none => pure false
-  | "stop_signal", .int i => if validSignum i then upd fun w => { w with stopSignal := i.toNat } else pure false
-  | "stop_signal", .bool _ => pure false
-  | "stop_children", .bool b => upd fun w => { w with stopChildren := b }
-  | "send_hup", .bool b => upd fun w => { w with sendHup := b }
-  | "max_age", .int i => upd fun w => { w with maxAge := i.toNat }
-  | "uid", .int 0 => upd id
-  | "uid", .str "root" => upd id
-  | "uid", _ => pure false
-  | _, _ => upd id
+    | some c =>
+      setWOpt wuid c
+      notify wuid "updated" none
+      pure true
 
 def setOptAction (key : String) : Int :=
   if ["working_dir", "uid", "gid", "shell", "env", "cmd", "args", "max_age", "max_age_variance"].contains key then 1
